@@ -18,6 +18,7 @@ import (
 	"github.com/coder/websocket"
 
 	"github.com/pancsta/asyncmachine-go/internal/utils"
+	"github.com/pancsta/asyncmachine-go/internal/verifhook"
 	amhelp "github.com/pancsta/asyncmachine-go/pkg/helpers"
 	am "github.com/pancsta/asyncmachine-go/pkg/machine"
 	"github.com/pancsta/asyncmachine-go/pkg/rpc/states"
@@ -725,6 +726,7 @@ func (s *Server) pushClient() {
 		s.lastPushData.queueTick == data.queueTick {
 
 		// s.log("skip no diff")
+		verifhook.Point("srv.push.nodiff")
 		return
 	}
 
@@ -772,6 +774,7 @@ func (s *Server) pushUpdateMutations(muts []tracerMutation) error {
 	// notify without a response
 	s.CallCount++
 
+	verifhook.Point("srv.push.computed")
 	// TODO failsafe retry (stateful)
 	return c.Notify(ClientUpdateMutations.Value, updateMuts)
 }
@@ -797,6 +800,7 @@ func (s *Server) pushUpdateLatest(data *tracerData) error {
 	// fmt.Printf("[S] update %v\n", update)
 	// fmt.Printf("[S] time %v\n", data.mTime)
 
+	verifhook.Point("srv.push.computed")
 	// TODO failsafe retry (stateful)
 	return c.Notify(ClientUpdate.Value, update)
 }
@@ -950,6 +954,7 @@ func (s *Server) RemoteAdd(
 	if s.Mach.Not1(ssS.Start) {
 		return am.ErrCanceled
 	}
+	defer verifhook.Point("srv.reply.unlocked")
 	s.lockExport.Lock()
 	defer s.lockExport.Unlock()
 
@@ -1016,6 +1021,7 @@ func (s *Server) RemoteRemove(
 	if s.Mach.Not1(ssS.Start) {
 		return am.ErrCanceled
 	}
+	defer verifhook.Point("srv.reply.unlocked")
 	s.lockExport.Lock()
 	defer s.lockExport.Unlock()
 
@@ -1047,6 +1053,7 @@ func (s *Server) RemoteSet(
 	if s.Mach.Not1(ssS.Start) {
 		return am.ErrCanceled
 	}
+	defer verifhook.Point("srv.reply.unlocked")
 	s.lockExport.Lock()
 	defer s.lockExport.Unlock()
 
